@@ -1,4 +1,4 @@
-import TxV.Proofs.MultiportMemIlvt
+import TxV.Proofs.MultiportMemIlvtOuter
 /-!
 # C23 — multiport memories are equivalent to an ideal synchronous memory
 
@@ -57,6 +57,28 @@ theorem c23_refines_xor (c : Cfg) (hnw : 0 < c.nw) (hg : ∀ g ∈ c.grans, g = 
     Xor.run c (Xor.init c) is = Ideal.run c (Ideal.init c) is :=
   Xor.run_eq hg is his (Xor.inv_init c hnw)
 
+-- OBLIGATION c23_onehot_table : OneHotCodedILVT (two-stage write pipeline with feedback ports, transparent banks and bypass registers as in memory.py:322-439) answers, in the cycle after an enabled read, with the one-hot code of the write port that wrote the row last (port 0 for a row never written), i.e. its encoded answer equals the read register of an ideal non-transparent memory of port numbers - every depth, every number >= 1 of write ports, every number of read ports, every history with distinct enabled write rows
+theorem c23_onehot_table (c : Cfg) (hnw : 0 < c.nw) (is : List In) (his : ∀ i ∈ is, OkIn c i) (i : In)
+    (hi : OkIn c i) (r : Nat) (hr : r < c.nr) (hen : i.rEn r = true) :
+    OneHot.encode (OneHot.outR c.nw (OneHot.runSt c (OneHot.init c.depth c.nw c.nr) (is ++ [i])) r)
+      = nthD 0 (OneHot.runIdeal c (Ideal.init (Ilvt.tableCfg c)) (is ++ [i])).rdata r := by
+  obtain ⟨R, hR⟩ := OneHot.inv_run (is ++ [i])
+    (fun j hj => by
+      rcases List.mem_append.mp hj with h | h
+      · exact his j h
+      · simp at h; subst h; exact hi)
+    (OneHot.inv_init c hnw)
+  apply hR.out r hr
+  simp only [OneHot.runSt, List.foldl_append, List.foldl_cons, List.foldl_nil]
+  rw [OneHot.step_rdEnBy _ _ _ _ hr, tableIn_rEn c i hr]
+  exact hen
+
+-- OBLIGATION c23_refines_ilvt : MultiportILVTMemory with each of its tables - MultiportXORILVTMemory (kind xor), MultiportOneHotILVTMemory (kind onehot: OneHotCodedILVT + Encoder), and the constructor default amaranth Memory (kind plain) - i.e. banks + table + bypass registers as in memory.py:466-559, shows on every read port in every cycle the data of the ideal memory - every depth/width/init, every number >= 1 of write ports and every number of read ports, every transparency set, every history of in-range port values whose enabled write ports address pairwise distinct rows; granularity None (with granularity the real classes fail: finding F9)
+theorem c23_refines_ilvt (kind : Ilvt.Kind) (c : Cfg) (hnw : 0 < c.nw) (hg : ∀ g ∈ c.grans, g = 0)
+    (is : List In) (his : ∀ i ∈ is, OkIn c i) :
+    Ilvt.run c (Ilvt.init kind c) is = Ideal.run c (Ideal.init c) is :=
+  Ilvt.run_eq hg is his (Ilvt.inv_init kind c hnw)
+
 /-! ### non-vacuity -/
 
 instance (nw : Nat) (i : In) : Decidable (DistinctRows nw i) :=
@@ -89,6 +111,10 @@ example : 0 < exCfg.nw ∧ (∀ g ∈ exCfg.grans, g = 0) ∧ ∀ i ∈ exHist, 
     port 1 the old 5; then 3 (written over by the other port), 12, 6 -/
 example : Xor.run exCfg (Xor.init exCfg) exHist = [[0, 0], [7, 5], [3, 12], [3, 3], [3, 6]] := by decide
 
+example : Ilvt.run exCfg (Ilvt.init .xor exCfg) exHist = [[0, 0], [7, 5], [3, 12], [3, 3], [3, 6]] := by decide
+example : Ilvt.run exCfg (Ilvt.init .onehot exCfg) exHist = [[0, 0], [7, 5], [3, 12], [3, 3], [3, 6]] := by decide
+example : Ilvt.run exCfg (Ilvt.init .plain exCfg) exHist = [[0, 0], [7, 5], [3, 12], [3, 3], [3, 6]] := by decide
+
 example : MultiRead.run { exCfg with grans := [2] } (MultiRead.init { exCfg with grans := [2] })
     [⟨[⟨1, 1, 15⟩], [⟨true, 1⟩, ⟨true, 1⟩]⟩, ⟨[⟨2, 1, 0⟩], [⟨true, 1⟩, ⟨true, 0⟩]⟩, ⟨[], [⟨true, 1⟩, ⟨false, 0⟩]⟩, ⟨[], []⟩]
     = [[0, 0], [7, 5], [3, 9], [3, 9]] := by decide
@@ -107,3 +133,5 @@ end TxV.MultiportMem
 #print axioms TxV.MultiportMem.onehot_ilvt_decode
 #print axioms TxV.MultiportMem.onehot_ilvt_decode_later
 #print axioms TxV.MultiportMem.c23_refines_xor
+#print axioms TxV.MultiportMem.c23_onehot_table
+#print axioms TxV.MultiportMem.c23_refines_ilvt
